@@ -198,7 +198,15 @@ def rule_net_blocks_drive_their_readers(repo):
 
 
 # (C02's rule_replace_keeps_edges is R-C15-saved, which C07's rule_replace_marks_registers already runs here)
-RULES = [rule_agree] + [_r for _r in _c02.RULES if _r is not _c02.rule_replace_keeps_edges] + list(_c07.RULES) + [rule_two_writers_rejected, rule_net_blocks_drive_their_readers]
+def rule_slices_are_one_node(repo):
+    """a nested slice s.w[4:8][0:2] and the plain slice s.w[0:2] are different bits: if they share one registry entry an update
+    block is recorded as reading the wrong bits, loses its edge to the real writer, and the result depends on the tie-break of
+    the scheduler -- decided by C08 (R-C08-nodes)"""
+    from rules.c08 import rule_nodes
+    return rule_nodes(repo)
+
+
+RULES = [rule_agree, rule_slices_are_one_node] + [_r for _r in _c02.RULES if _r is not _c02.rule_replace_keeps_edges] + list(_c07.RULES) + [rule_two_writers_rejected, rule_net_blocks_drive_their_readers]
 
 
 def _m(name, file, old, new, rule=None, count=1):
